@@ -171,8 +171,8 @@ func optNat(r *common.Rand, tab []uint64, max uint64) string {
 	}
 }
 
-var DataSigners = []string{"none", "none", "sha", "sha", "hmac", "hmaccert", "ecc", "ecc", "ecccert", "rsa", "rsacert", "empty", "eccint"}
-var IntSigners = []string{"none", "none", "none", "shaint", "shaint", "hmacint", "eccint", "eccint", "rsaint", "sha", "hmac", "ecc"}
+var DataSigners = []string{"none", "none", "sha", "sha", "hmac", "hmac", "hmaccert", "ecc", "ecc", "ecccert", "rsa", "rsacert", "empty", "eccint", "ecc521", "ecc521", "ecc384", "ecc224", "ecccert521"}
+var IntSigners = []string{"none", "none", "none", "shaint", "shaint", "hmacint", "hmacint", "eccint", "eccint", "rsaint", "sha", "hmac", "ecc", "eccint521", "eccint521", "eccint384", "eccint224", "ecc521"}
 
 func testSignerTok(r *common.Rand) string {
 	est := common.Pick(r, []int{1, 32, 72, 252, 253, 256, 300, 65535, 65536})
@@ -195,7 +195,18 @@ func testSignerTok(r *common.Rand) string {
 
 // WithKeyName gives signers that announce a KeyLocator name a generated one now and then
 func WithKeyName(r *common.Rand, g *common.Gen, signer string) string {
-	if strings.ContainsAny(signer, "@:") || !r.Chance(1, 4) {
+	if strings.ContainsAny(signer, "@:~") {
+		return signer
+	}
+	// HMAC keys of every length around the SHA-256 block size (64) and beyond
+	if strings.HasPrefix(signer, "hmac") && r.Chance(2, 3) {
+		signer += "~" + strconv.Itoa(common.Pick(r, []int{0, 1, 31, 32, 63, 64, 65, 66, 127, 128, 129, 200}))
+		g.Stat("hmac-keylen")
+		if strings.HasPrefix(signer, "hmacint") {
+			return signer
+		}
+	}
+	if !r.Chance(1, 4) {
 		return signer
 	}
 	switch SigBase(signer) {
